@@ -24,12 +24,17 @@
 (*   - a blank line and ctrl-C at the prompt do nothing, ctrl-D leaves the  *)
 (*     innermost loop (the outermost: fq ends with status 0);               *)
 (*   - a line that does not compile prints one error line;                  *)
-(*   - AN INTERRUPT WHILE A LINE IS EVALUATED ENDS THAT EVALUATION AND      *)
-(*     NOTHING ELSE (property C20): nothing more of it is printed, no       *)
-(*     nested loop is started by it, the level and every enclosing level    *)
-(*     stay as they were - the enclosing levels are themselves running      *)
-(*     inside the evaluation of the line that started them, and those       *)
-(*     evaluations must not be cancelled;                                   *)
+(*   - AN INTERRUPT WHILE A LINE IS EVALUATED ENDS THE INNERMOST EVALUATION IN     *)
+(*     PROGRESS AND NOTHING ELSE (property C20).  For an ordinary line that   *)
+(*     is the line's own evaluation: nothing more of it is printed, the level *)
+(*     and every enclosing level stay as they were - the enclosing levels are *)
+(*     themselves running inside the evaluation of the line that started      *)
+(*     them, and those evaluations must not be cancelled.  For `F | repl` the *)
+(*     outputs of F are collected by an evaluation NESTED in the line's       *)
+(*     (repl.jq _repl_slurp_eval: [eval(F; on error: print)]), so that one is *)
+(*     the innermost: the collection ends, its error is printed, and the      *)
+(*     line's evaluation goes on - it enters the nested loop with what had    *)
+(*     been collected until then;                                             *)
 (*   - the prompt shows the nesting level and a summary of the inputs.      *)
 (*                                                                         *)
 (* Values: numbers, null and arrays (tagged records, see JsonVal.tla for    *)
@@ -99,10 +104,19 @@ Vals(os)     == IF os = <<>> THEN <<>> ELSE (IF Head(os).t = "e" THEN <<>> ELSE 
 
 Forever == "(range(1000000000)|select(.<0))"
 RunText     == "\"go\", " \o Forever \o ", \"never\""
-RunPushText == "((\"\\\"go\\\"\" | println), " \o Forever \o ") | repl"
+RunPushText == "(., (\"\\\"go\\\"\" | println), " \o Forever \o ") | repl"
+(* lines that start (and are done with) a nested evaluation before they run for ever: the interrupt has to reach the LINE's evaluation *)
+(*   runce  the nested evaluation does not compile and the error is caught                                                        *)
+(*   runab  the nested evaluation is abandoned after its first output (first/1 = label + break: its iterator is never resumed)    *)
+(*   runfin the nested evaluation ran to its end                                                                                   *)
+RunCeText  == "(try eval(\"nosuchfn_verif\") catch \"caught\"), " \o RunText
+RunAbText  == "first(eval(\"1, 2\")), " \o RunText
+RunFinText == "[eval(\"1, 2\")], " \o RunText
+RunKinds == {"run", "runce", "runab", "runfin"}
+RunPre(k) == CASE k = "run" -> <<>> [] k = "runce" -> <<"\"caught\"">> [] k = "runab" -> <<"1">> [] k = "runfin" -> <<"[1,2]">>
 
 (* an action = one answer of the line reader *)
-Kinds == {"eval", "push", "slurp", "blank", "bad", "badopt", "mid", "sigint", "eof", "run", "runpush"}
+Kinds == {"eval", "push", "slurp", "blank", "bad", "badopt", "mid", "sigint", "eof", "run", "runpush", "runce", "runab", "runfin"}
 Text(a) ==
   CASE a.k = "eval"    -> FnText(a.f)
     [] a.k = "push"    -> FnText(a.f) \o " | repl" \o (IF a.o < 0 THEN "" ELSE "({depth: " \o ToString(a.o) \o "})")
@@ -112,6 +126,9 @@ Text(a) ==
     [] a.k = "badopt"  -> ". | repl(1)"
     [] a.k = "mid"     -> "repl | ."
     [] a.k = "run"     -> RunText
+    [] a.k = "runce"   -> RunCeText
+    [] a.k = "runab"   -> RunAbText
+    [] a.k = "runfin"  -> RunFinText
     [] a.k = "runpush" -> RunPushText
     [] a.k \in {"sigint", "eof"} -> ""
 
@@ -155,11 +172,14 @@ Do(stack, slurp, a) ==
        [] a.k \in {"blank", "sigint"} -> same(<<>>, FALSE)
        [] a.k \in {"bad", "badopt"}   -> same(<<"ERR">>, FALSE)               \* refused before anything is evaluated
        [] a.k = "mid"   -> same([i \in 1..Len(top.ins) |-> "ERR"], FALSE)     \* repl not last: a run-time error per input
-       [] a.k = "run"   -> IF top.ins = <<>> THEN same(<<>>, FALSE) ELSE same(<<"\"go\"">>, TRUE)
+       [] a.k \in RunKinds -> IF top.ins = <<>> THEN same(<<>>, FALSE) ELSE same(RunPre(a.k) \o <<"\"go\"">>, TRUE)
        [] a.k = "runpush" -> IF top.ins = <<>>
                              THEN [stack |-> Append(stack, [ins |-> <<>>, d |-> -1]), slurp |-> slurp,
                                    out |-> <<>>, intr |-> FALSE, over |-> FALSE]
-                             ELSE same(<<"\"go\"">>, TRUE)                    \* interrupted while collecting: no nested loop
+                             ELSE \* interrupted while the nested evaluation collects: what it had output so far (the first input) is
+                                  \* kept, its error is printed, the nested loop is entered
+                                  [stack |-> Append(stack, [ins |-> <<top.ins[1]>>, d |-> -1]), slurp |-> slurp,
+                                   out |-> <<"\"go\"", "ERR">>, intr |-> TRUE, over |-> FALSE]
        [] a.k = "eof"   -> [stack |-> SubSeq(stack, 1, Len(stack) - 1), slurp |-> slurp, out |-> <<>>, intr |-> FALSE,
                             over |-> Len(stack) = 1]
 
